@@ -816,11 +816,12 @@ def nontrivial(case, obs):
     """non-trivial: at least one non-empty rank or quantile grid answered on a digest holding >= 2 values"""
     try:
         _measure(case, obs)
-        p = os.path.join(os.path.dirname(os.path.abspath(__file__)), "..", "..", "evidence")
+        # measured tests (NOT proofs) go to a sub-directory: every *.json directly under evidence/ is a property's evidence file
+        p = os.path.join(os.path.dirname(os.path.abspath(__file__)), "..", "..", "evidence", "measured")
         os.makedirs(p, exist_ok=True)
         name = {"c15": "C15", None: "C10"}.get(_FOCUS[0])
         if name:
-            json.dump(_MEASURED, open(os.path.join(p, name + "-measured-tests.json"), "w"), indent=1)
+            json.dump(_MEASURED, open(os.path.join(p, name + "-tdigest-measured-tests.json"), "w"), indent=1)
     except Exception:
         pass
     return any(c in (3, 4) and len(a) > 4 and len(o) > 2 and o[0] >= 0 for (c, a), o in zip(case.ops, obs))
